@@ -233,7 +233,7 @@ Definition router_wire (mandatory manual : bool) (peer : option strat) (v : list
       | [] => SRErr
       | _ => match peer with
              | None => if mandatory then SRErr else SRNothing
-             | Some s => SRWire (clear_last (strat_prepare s manual idm payload))
+             | Some s => SRWire (norm_flags (strat_prepare s manual idm payload))
              end
       end
   end.
@@ -248,7 +248,7 @@ Proof.
   destruct (snd idm); [reflexivity|]. destruct peer as [s|]; [|reflexivity].
   destruct (strat_prepare_fb_ok s manual idm b') as (w & -> & Hw);
     [eapply remove_canon; exact E | rewrite Hb'; cbn [length] in L; lia|].
-  cbn [bind]. rewrite fb_clear_last_list, Hw, Hb'. reflexivity.
+  cbn [bind]. rewrite fb_norm_list, Hw, Hb'. reflexivity.
 Qed.
 (* identity + 254 payload frames to a DEALER / unknown-type peer: the delimiter insert panics *)
 Lemma router_auto_255_panics mandatory s (v : list frame) :
@@ -371,7 +371,7 @@ Qed.
 
 Lemma router_sound mandatory manual peer v w :
   send_multipart_of (SndRouter mandatory manual peer) v = Ok (SRWire w) ->
-  exists idm payload s, v = idm :: payload /\ peer = Some s /\ w = clear_last (strat_prepare s manual idm payload).
+  exists idm payload s, v = idm :: payload /\ peer = Some s /\ w = norm_flags (strat_prepare s manual idm payload).
 Proof.
   intros H. cbn [send_multipart_of] in H. unfold api_send_multipart in H.
   apply bind_ok in H. destruct H as (b & Hb & H). destruct (from_vec_canon v b Hb) as [C Hl].
@@ -382,7 +382,7 @@ Proof.
   destruct (snd idm); [discriminate|]. destruct peer as [s|]; [|destruct mandatory; discriminate].
   apply bind_ok in H. destruct H as (w0 & Hs & H). injection H as <-.
   exists idm, payload, s. split; [reflexivity|]. split; [reflexivity|].
-  rewrite fb_clear_last_list, (strat_prepare_fb_sound s manual idm b' w0 C' Hs), Hb'. reflexivity.
+  rewrite fb_norm_list, (strat_prepare_fb_sound s manual idm b' w0 C' Hs), Hb'. reflexivity.
 Qed.
 Lemma req_never_wire v w : send_multipart_of SndReq v <> Ok (SRWire w).
 Proof. cbn [send_multipart_of]. unfold api_send_multipart. destruct (fb_from_vec v); cbn; discriminate. Qed.
@@ -396,7 +396,7 @@ Definition wire_of (k : sender) (v : list frame) : list frame :=
   | SndReq => []
   | SndRouter _ manual peer =>
       match v, peer with
-      | idm :: payload, Some s => clear_last (strat_prepare s manual idm payload)
+      | idm :: payload, Some s => norm_flags (strat_prepare s manual idm payload)
       | _, _ => []
       end
   end.
@@ -440,52 +440,26 @@ Qed.
 Lemma more_ok_nil : more_ok [].
 Proof. reflexivity. Qed.
 
-(* ROUTER does not normalise: the wire is one message when the application set MORE on every payload frame
-   but the last (as the doc comment of Socket::send_multipart demands) *)
-Lemma router_wire_more_ok s manual (idm : frame) payload :
-  more_ok payload -> more_ok (clear_last (strat_prepare s manual idm payload)).
-Proof.
-  intros M.
-  assert (forall x t, more_ok (x :: t) -> more_ok (with_more idm :: clear_last (x :: t))) as H1.
-  { intros x t Mx. rewrite more_ok_clear by exact Mx. apply more_ok_cons; [reflexivity | exact Mx]. }
-  assert (forall x t, more_ok (x :: t) -> more_ok (with_more idm :: delim true :: clear_last (x :: t))) as H2.
-  { intros x t Mx. rewrite more_ok_clear by exact Mx.
-    apply more_ok_cons; [reflexivity|]. apply more_ok_cons; [reflexivity | exact Mx]. }
-  assert (forall x t, more_ok (x :: t) -> more_ok (delim true :: clear_last (x :: t))) as H3.
-  { intros x t Mx. rewrite more_ok_clear by exact Mx. apply more_ok_cons; [reflexivity | exact Mx]. }
-  destruct payload as [|x t].
-  - destruct s, manual; reflexivity.
-  - destruct s, manual.
-    + exact (H1 x t M).
-    + exact (H2 x t M).
-    + exact (H3 x t M).
-    + exact (H3 x t M).
-    + change (more_ok (clear_last (x :: t))). rewrite more_ok_clear by exact M. exact M.
-    + exact (H2 x t M).
-    + change (more_ok (clear_last (x :: t))). rewrite more_ok_clear by exact M. exact M.
-    + change (more_ok (clear_last (x :: t))). rewrite more_ok_clear by exact M. exact M.
-Qed.
-
+(* every sender, ROUTER included (its send_multipart runs the same flag loop over the wire frames): whatever
+   flags the application left on the frames, what reaches the connection carries MORE on all but the last *)
 Theorem wire_is_one_message k v w :
-  send_multipart_of k v = Ok (SRWire w) ->
-  (match k with SndRouter _ _ _ => more_ok (tl v) | _ => True end) ->
-  more_ok w.
+  send_multipart_of k v = Ok (SRWire w) -> more_ok w.
 Proof.
-  intros H Hk. apply send_sound in H. subst w. destruct k as [| |manual|prefix| |mandatory manual peer]; cbn [wire_of].
+  intros H. apply send_sound in H. subst w. destruct k as [| |manual|prefix| |mandatory manual peer]; cbn [wire_of].
   - apply more_ok_norm.
   - apply more_ok_norm.
   - unfold dealer_prepare. destruct manual; [apply more_ok_norm|]. destruct v; [reflexivity | apply more_ok_norm].
   - apply more_ok_norm.
   - reflexivity.
-  - destruct v as [|idm payload]; [reflexivity|]. destruct peer as [s|]; [|reflexivity].
-    apply router_wire_more_ok. exact Hk.
+  - destruct v as [|idm payload]; [reflexivity|]. destruct peer as [s|]; [apply more_ok_norm | reflexivity].
 Qed.
 
-(* ... and it is refuted for ROUTER with payload flags left unset: [id, a, b] becomes two messages on the wire *)
+(* legacy witness of the repaired finding "ROUTER send_multipart keeps the application's flags":
+   [id, a, b] with MORE unset on a now leaves as ONE message *)
 Definition router_unnormalised_witness : list frame := [(true, [65]); (false, [1]); (false, [2])].
-Theorem wire_is_one_message_router_refuted :
+Theorem wire_is_one_message_router_witness :
   exists w, send_multipart_of (SndRouter false false (Some SDealer)) router_unnormalised_witness = Ok (SRWire w) /\
-            wire_split w = [[(true, [65]); (true, []); (false, [1])]; [(false, [2])]].
+            wire_split w = [[(true, [65]); (true, []); (true, [1]); (false, [2])]].
 Proof. eexists. split; vm_compute; reflexivity. Qed.
 
 (* ---------------------------------------------------------------- nothing is truncated *)
@@ -504,7 +478,7 @@ Proof.
     destruct v as [|x t]; [exists (map snd prefix ++ [[]]); rewrite app_nil_r; reflexivity|].
     exists (map snd prefix). reflexivity.
   - exfalso. exact (req_never_wire v w H).
-  - destruct (router_sound _ _ _ _ _ H) as (idm & payload & s & -> & -> & ->). cbn [tl]. rewrite datas_clear.
+  - destruct (router_sound _ _ _ _ _ H) as (idm & payload & s & -> & -> & ->). cbn [tl]. rewrite datas_norm.
     destruct payload as [|x t]; destruct s, manual;
       first [ exists []; reflexivity | exists [[]]; reflexivity | exists [snd idm]; reflexivity
             | exists [snd idm; []]; reflexivity ].
